@@ -23,10 +23,14 @@ Theorem parsed_names_normal :
 Proof. exact PrintNormal.parsed_names_normal. Qed.
 Print Assumptions parsed_names_normal.
 
-(** "every date format ... same days": parsing the formatted date gives the date back *)
+(** "every date format ... same days": parsing the formatted date gives the date back.  [sep_ok]: an
+    element of variable width ([2], [_2], [1]) is not directly followed by a digit (Go reads two digits
+    when it can: under the layout [22006] the text [52021] is not the 5th of 2021, see
+    [variable_width_needs_separator_refuted] in Props/C14_layouts.v); layouts made of [2006], [01],
+    [02], [Jan], [January] and literals satisfy it trivially *)
 Theorem format_parse_date :
   forall (toks : list ltoken) (y m d : Z),
-    full_layout toks -> valid_civil (y, m, d) ->
+    sep_ok toks = true -> full_layout toks -> valid_civil (y, m, d) ->
     parse_date toks (format_date toks (y, m, d)) = Some (y, m, d).
 Proof. exact PrintDates.format_parse_date. Qed.
 Print Assumptions format_parse_date.
@@ -35,7 +39,7 @@ Print Assumptions format_parse_date.
     [parse_date] returns always is such a date *)
 Theorem format_parse_date_fits :
   forall (toks : list ltoken) (cv : Z * Z * Z),
-    civil_fits toks cv -> parse_date toks (format_date toks cv) = Some cv.
+    sep_ok toks = true -> civil_fits toks cv -> parse_date toks (format_date toks cv) = Some cv.
 Proof. exact PrintDates.format_parse_date_fits. Qed.
 Print Assumptions format_parse_date_fits.
 
@@ -85,23 +89,29 @@ Proof. exact PrintMain.print_idempotent. Qed.
 Print Assumptions print_idempotent.
 
 (** "For every readable log": the days of ANY log the tool reads have the normal shape (dates the
-    layout can express, normal pairwise distinct names), and the layout of a non-empty readable log
-    is a heading layout up to the spaces at its end ([layout_core]: a space of the layout matches the
-    empty run at the end of a heading, so the layout ["2006/01/02 "] reads the heading [2021/01/01]) *)
+    layout can express, normal pairwise distinct names), and the layout of a non-empty readable log,
+    when it reads back what it writes ([stable_layout]: variable-width elements separated, no [_2] at
+    the front), is a heading layout up to the spaces at its end ([layout_core]: a space of the layout
+    matches the empty run at the end of a heading, so the layout ["2006/01/02 "] reads the heading
+    [2021/01/01]) *)
 Theorem read_log_shape :
   forall (NM : Num) (toks : list ltoken) (data : bytes) (L : list (lognode NM)),
     read_log NM toks data = Some L ->
     Forall (day_shape NM toks) L
-    /\ (L <> [] -> forallb safe_tok toks = true -> heading_layout (layout_core toks) = true).
+    /\ (L <> [] -> forallb safe_tok toks = true -> stable_layout toks = true ->
+        heading_layout (layout_core toks) = true).
 Proof. exact PrintMain.read_log_shape. Qed.
 Print Assumptions read_log_shape.
 
-(** hence C14 for every readable log; the only hypotheses left are the documented note forms and
-    that no printed line reaches the scanner's 65536-byte limit *)
+(** hence C14 for every readable log; the hypotheses left are the documented note forms, that no
+    printed line reaches the scanner's 65536-byte limit, and [stable_layout]: the layout reads back
+    what it writes (false for [22006], and for a layout that begins with [_2], whose headings of the
+    days 1..9 begin with a blank and are taken for entries: finding KF4,
+    [underday_leading_blank_refuted] in Props/C14_layouts.v) *)
 Theorem print_reads_back_log :
   forall (NM : Num), FmtStable NM ->
   forall (c : rconfig) (data : bytes) (L : list (lognode NM)),
-    forallb safe_tok (rc_date c) = true ->
+    forallb safe_tok (rc_date c) = true -> stable_layout (rc_date c) = true ->
     read_log NM (rc_date c) data = Some L ->
     Forall (fun d => Forall (fun mp => documented_note mp = true) (notes_of NM d)) L ->
     Forall (fun d => Forall (fun l => (lengthN l < max_token)%N) (day_lines NM c d)) L ->
@@ -135,7 +145,7 @@ Print Assumptions run_print_fails.
 Theorem run_print_twice_log :
   forall (NM : Num), FmtStable NM ->
   forall (w1 w2 : world) (op : options) (c : rconfig) (data : bytes) (toks : list ltoken) (L : list (lognode NM)),
-    rc_date c = toks ->
+    rc_date c = toks -> stable_layout toks = true ->
     print_setting w1 op data toks -> read_log NM toks data = Some L ->
     Forall (fun d => Forall (fun mp => documented_note mp = true) (notes_of NM d)) (filter (in_period NM op) L) ->
     Forall (fun d => Forall (fun l => (lengthN l < max_token)%N) (day_lines NM c d)) (filter (in_period NM op) L) ->
